@@ -14,6 +14,7 @@ import (
 	"verifharness/drv/hb"
 	"verifharness/drv/pk"
 	"verifharness/drv/re"
+	"verifharness/drv/rl"
 	"verifharness/drv/rt"
 	"verifharness/drv/sy"
 	"verifharness/drv/ts"
@@ -51,6 +52,8 @@ func main() {
 		os.Exit(rt.Main(os.Args[2:]))
 	case "ag":
 		os.Exit(ag.Main(os.Args[2:]))
+	case "rl":
+		os.Exit(rl.Main(os.Args[2:]))
 	case "hb":
 		os.Exit(hb.Main(os.Args[2:]))
 	default:
